@@ -222,6 +222,80 @@ def mutators():
             ("invalid aggregate published", invalid_published)]
 
 
+OTHER_BUCKET = {"deneb": "electra", "electra": "fulu", "fulu": "deneb"}     # harness/c09 otherBucket: where ep="other" signs
+
+
+def sequences(seed, pool, k):
+    """SEQUENCES of 2..3 calls on ONE Aggregator + verifier instance (as the application wires it: one instance for the
+    life of the process).  Every call is judged on its own; the earlier calls only give a stateful implementation the
+    chance to remember something it must not re-use: the same object type first verified in the fork version the later
+    call's wrong partials are signed with, another type's domain, the same validators' earlier aggregate."""
+    r = vlib.rng(seed, "c09seq")
+    combos = {}
+    for c in pool:
+        st = c[0]
+        combos[(st["typ"], st["ver"], st["bucket"])] = (st["domain"], st["esrc"])
+    by_typ = {}
+    for (typ, ver, bucket) in sorted(combos):
+        by_typ.setdefault(typ, []).append((ver, bucket))
+    doms = sorted({d for d, _ in combos.values()})
+    out = []
+
+    def call(typ, ver, bucket, n, t, lists):
+        domain, esrc = combos[(typ, ver, bucket)]
+        return {"ev": "Call", "typ": typ, "ver": ver, "bucket": bucket, "T": t, "N": n, "domain": domain, "esrc": esrc,
+                "vals": lists}
+
+    def plist(typ, ver, bucket, n, t, **over):
+        domain, _ = combos[(typ, ver, bucket)]
+        ids = r.sample(range(1, n + 1), r.randint(t, n))
+        lst = []
+        for i in ids:
+            p = {"idx": i, "by": i, "content": "A", "over": "A", "dom": domain, "ep": "own", "form": "ok", "vi": False}
+            p.update(over)
+            lst.append(p)
+        return lst
+
+    for _ in range(k):
+        typ = r.choice(sorted(by_typ))
+        n, t = r.choice(NT_RANDOM)
+        ver, bucket = r.choice(by_typ[typ])
+        prime = [vb for vb in by_typ[typ] if vb[1] == OTHER_BUCKET[bucket]]
+        style = r.choice(["stalefork", "stalefork", "staledomain", "honest_after_other", "mixed"])
+        seq = []
+        nprime = r.choice([1, 1, 2])
+        for _p in range(nprime):
+            if style in ("stalefork", "honest_after_other", "mixed") and prime:
+                pv, pb = r.choice(prime)
+                ptyp = typ
+            elif style == "staledomain":
+                ptyp = r.choice(sorted(by_typ))
+                pv, pb = r.choice(by_typ[ptyp])
+            else:
+                ptyp = typ
+                pv, pb = r.choice(by_typ[typ])
+            seq.append(call(ptyp, pv, pb, n, t, [plist(ptyp, pv, pb, n, t) for _v in range(r.choice([1, 2]))]))
+        nv = r.choice([1, 1, 2])
+        if style == "stalefork":        # every partial signed in the fork version of the EARLIER call's objects
+            lists = [plist(typ, ver, bucket, n, t, ep="other") for _v in range(nv)]
+            if nv == 2 and r.random() < 0.5:
+                lists[0] = plist(typ, ver, bucket, n, t)
+        elif style == "staledomain":    # every partial signed with the domain of the earlier call's type
+            pd = seq[-1]["domain"]
+            wrong = pd if pd != combos[(typ, ver, bucket)][0] else r.choice([d for d in doms if d != pd])
+            lists = [plist(typ, ver, bucket, n, t, dom=wrong) for _v in range(nv)]
+        elif style == "honest_after_other":
+            lists = [plist(typ, ver, bucket, n, t) for _v in range(nv)]
+        else:
+            lists = [plist(typ, ver, bucket, n, t) for _v in range(nv)]
+            for p in lists[0]:
+                if r.random() < 0.5:
+                    p["ep"] = "other"
+        seq.append(call(typ, ver, bucket, n, t, lists))
+        out.append(seq)
+    return out
+
+
 def run(tier, seed):
     o = vlib.Outcome(PID, tier, seed)
     thorough = tier == "thorough"
@@ -254,6 +328,7 @@ def run(tier, seed):
     if extra:
         vlib.conformance(o, FAMILY, "SigAggTrace", trace_cfg, "c09", extra, tag="enum_nt", **kw)
     vlib.conformance(o, FAMILY, "SigAggTrace", trace_cfg, "c09", rnd, tag="random", **kw)
+    vlib.conformance(o, FAMILY, "SigAggTrace", trace_cfg, "c09", sequences(seed, cases, 3000 if thorough else 400), tag="seq", **kw)
     # binding negative controls on recorded traces
     tr = vlib.split_traces(vlib.read_ndjson(vlib.workdir(PID) + "/trace_enum.ndjson"))
     ms = mutators()
